@@ -62,6 +62,7 @@ func init() {
 	add(6442450944) // > 2^32
 	add(9223372036854777856)
 	numBoundary = append(numBoundary, math.NaN())
+	universe = allVals()
 	run.Register(&run.Check{
 		ID:   "C05",
 		Rule: "each case applies all 23 binary operators (and the unary/logical/conditional forms) to one ordered operand pair from the boundary set (IEEE specials, powers of two and neighbours up to 2^1023, values beyond 2^31/2^32/2^53/2^63, numeric/malformed strings incl. every white-space kind, booleans, null, undefined, objects with scripted valueOf/toString incl. throwing and object-returning ones, arrays, functions are excluded); operands arrive as literals or through Otto.Set with every Go numeric kind; a case is non-trivial when the pair is not (number literal, number literal) with both small integers; distinct by (class(a), class(b)) cell and exact pair",
@@ -122,7 +123,7 @@ func allVals() []Val {
 	return append(vs, otherVals...)
 }
 
-var universe = allVals()
+var universe []Val
 
 func cases(tier string, seed uint64) int {
 	n := len(universe)
